@@ -1,4 +1,6 @@
 """C01 — snapping never introduces crossing edges.  Spec: SnapTrace.tla (C01_NoCrossing), RingOps.tla, Grid.tla."""
+import json
+
 import snapcheck
 import vlib
 
@@ -32,6 +34,11 @@ def run(tier):
 
 
 def classify(inv, rec, grp):
+    known = {f["id"]: f for f in vlib.known_for(PROP)}
+    if "F5" in known and inv == "C01_NoCrossing" and "step" not in rec:      # synthetic-grid records carry exact lattice inputs
+        w = snapcheck.f5_key_matches(vlib.build_harness(), [json.dumps(rec)])
+        if w is not None:
+            return ("F5", known["F5"]["what"])
     return None
 
 
